@@ -6,7 +6,7 @@ from core import call_matches, op_place, op_local, backward_slice
 from props import shared
 
 LEVEL = 'proof'
-FLOOR = 40
+FLOOR = 53      # 70% of the 76 obligation instances derived on the tree the rules were last reviewed against
 EXPLANATION = ('WAL confinement of every persistent-state writer; in replay a record is applied only after the whole record passed the '
                'validation pass (checksum compared, sequence number == last_enacted+1); last_enacted advanced only by the applier; appliers '
                'never read the file they write (after-images, idempotent); replay, log cleanup and in-memory table initialisation are totally '
